@@ -25,7 +25,8 @@ EXTENDS Expr, TLC, Json, Randomization
 CONSTANTS NP,        \* number of partition columns (1..3)
           SV,        \* string-pool indices usable as values of columns 1 and 3
           IV,        \* integers usable as values of column 2
-          NLay, NFlt \* sample sizes
+          NLay, NFlt, \* sample sizes: layouts, filters from the whole grammar,
+          NEq         \* ... and filters built around equalities on partition columns
 
 VARIABLES lay, flt
 
@@ -73,6 +74,13 @@ Filters ==
   \cup {Bin("and", a, Bin("or", b, c)) : a \in EqAtoms, b \in EqAtoms, c \in EqAtoms}
   \cup {Bin("and", Bin("and", a, b), c) : a \in EqAtoms, b \in EqAtoms, c \in EqAtoms}
 
+\* equality on a partition column (both orientations), alone, with a second one, or with a data-column atom:
+\* the shapes that drive the listing-prefix optimisation
+PartEqAtoms == {a \in EqAtoms : PartAtom(a)}
+DataAtoms == {a \in Atoms : ~PartAtom(a)}
+PartEqFilters == PartEqAtoms \cup {Bin("and", a, b) : a \in PartEqAtoms, b \in PartEqAtoms}
+                 \cup {Bin("and", a, b) : a \in PartEqAtoms, b \in DataAtoms}
+
 RECURSIVE ColsOf(_)
 ColsOf(x) ==
   CASE x.op = "col" -> {x.i}
@@ -100,7 +108,7 @@ Laws(l, x) ==
   /\ PartOnly(x) => Need(l, x) = NeedP(l, x)
 
 Init == /\ lay \in RandomSubset(NLay, Layouts)
-        /\ flt \in RandomSubset(NFlt, Filters)
+        /\ flt \in RandomSubset(NFlt, Filters) \cup RandomSubset(NEq, PartEqFilters)
 Next == UNCHANGED <<lay, flt>>
 Spec == Init /\ [][Next]_<<lay, flt>>
 
